@@ -1,6 +1,6 @@
 \* C12, exhaustive, REPAIRED design (LockWrites, StopKA): all invariants + liveness.
 \* quick: payload counts 0..3, two ticks; the driver rewrites the two constants for the thorough tier (0..4, four ticks).
-\* measured: quick 21,887 distinct / 42,344 generated states, depth 43, ~9 s; thorough 185,294 / 371,999, depth 59, ~20-50 s (4 workers);
+\* measured: quick 23,483 distinct / 45,764 generated states, depth 44, ~9 s; thorough 198,988 / 402,182, depth 60, ~25-50 s (4 workers);
 \* every action has a non-zero coverage count (notes/C12.md)
 SPECIFICATION Spec
 CONSTANTS
